@@ -48,8 +48,11 @@ def plan(tier):
 
 
 @st.composite
-def cases(draw):
-    ops, G = gen.gen_model_ops(draw, FEAT)
+def cases(draw, dag=False):
+    if dag:
+        ops, G, _info = gen.gen_dag_model(draw, uncached_p=2, handled=False)
+    else:
+        ops, G = gen.gen_model_ops(draw, FEAT)
     recalc = draw(st.booleans())
     sids = gen.all_ctx_ids(G) + gen.item_sids(G, 2)
     hist = []
@@ -127,7 +130,7 @@ def cases(draw):
 
 
 def strategy(tier):
-    return cases()
+    return st.one_of(cases(), cases(dag=True))
 
 
 def live_held(real):
